@@ -91,6 +91,7 @@ func runC05(c *Ctx, r *Report) {
 	r.Rule("C05.R6", "no use after release: a function that acquires and releases a register on a long-lived environment does not return an object that may still be that register (directly or inside a ReturnValue): the slot is reused by the next loop")
 	r.Rule("C05.R7", "no stale alias: in a function that writes a register slot (through (*Register).Ptr()), no loop-carried value may be an unsanitised evaluation result (a *Register kept across iterations changes when the slot is rewritten)")
 	r.Rule("C05.R8", "release only what was acquired: the Register passed to ReleaseRegister comes from MakeRegister, or from a wrapper that acquires on every return path, or from a wrapper whose only non-acquiring exit is its HasRegisters() fallback and whose call is guarded by HasRegisters() on the same environment")
+	r.Rule("C05.R9", "nested functions stop the register rewrite: every return of ModifyRegister's *ast.FunctionLiteral arm returns cont = false (the rewriter is post-order, a nested body is already rewritten when the arm runs)")
 	r.Rule("C05.R5", "fallback instead of failure: when setupRegister reports !ok the caller takes the variable path instead of returning an error")
 
 	makeReg := c.Fn("object", "Environment.MakeRegister")
@@ -617,6 +618,44 @@ func runC05(c *Ctx, r *Report) {
 		}
 	}
 	r.Floor("C05.R5", 2)
+
+	// R9: the register rewriter gives up on any nested function
+	{
+		mr := c.SSAFn(c.Fn("eval", "ModifyRegister"))
+		flT := types.NewPointer(c.TypeNamed("ast", "FunctionLiteral"))
+		var arm *ssa.BasicBlock
+		eachInstr(mr, func(in ssa.Instruction) {
+			ta, ok := in.(*ssa.TypeAssert)
+			if !ok || !ta.CommaOk || !types.Identical(ta.AssertedType, flT) {
+				return
+			}
+			if ifi, ok := ta.Block().Instrs[len(ta.Block().Instrs)-1].(*ssa.If); ok {
+				_ = ifi
+				arm = ta.Block().Succs[0]
+			}
+		})
+		if arm == nil {
+			r.Fail("C05.R9", ssaFuncName(mr), "the register rewriter has an arm for nested function literals", c.Pos(mr.Pos()), "ModifyRegister has no *ast.FunctionLiteral arm any more: a nested function captures the variable by name, and its body (already rewritten, ast.Modify is post-order) would read the enclosing register slot")
+		} else {
+			n9, bad := 0, ""
+			for _, b := range mr.Blocks {
+				if !(b == arm || arm.Dominates(b)) {
+					continue
+				}
+				ret, ok := b.Instrs[len(b.Instrs)-1].(*ssa.Return)
+				if !ok || len(ret.Results) != 2 {
+					continue
+				}
+				n9++
+				if k, ok := retVal(ret, 1).(*ssa.Const); !ok || k.Value == nil || k.Value.ExactString() != "false" {
+					bad = c.Pos(instrPos(ret))
+				}
+			}
+			r.Check(n9 > 0 && bad == "", "C05.R9", ssaFuncName(mr), "every return of the nested-function arm aborts the rewrite (cont = false)", c.Pos(arm.Instrs[0].Pos()),
+				"a path through the *ast.FunctionLiteral arm lets the register rewrite go on ("+bad+"): ast.Modify visits children first, so the nested function's body has already been rewritten to the enclosing register; when that function is called later it reads the loop/parameter slot instead of its own variable (even when one of its parameters has the same name)")
+		}
+		r.Floor("C05.R9", 1)
+	}
 
 	// shared C13.R1: setupRegister rewrites a *copy* of the body; ast.Modify must not write into its input
 	// (only when C05 itself is being decided: other properties that share C05 rules do not need it)
